@@ -11,6 +11,13 @@ exactly when `Generated.WaitShape` says that the source has such a call before t
 * `Client.DoObserve` = `limitParallelRequests.DoObserve`, then `NewObservation`: write (same ACK wait), then the select
   on the first notification.
 * `Client.Ping`: `AsyncPing`, then the select on the pong (which the socket reader handles inline).
+
+A hand-over may also be made by the *caller* of the function that holds the blocking construct (`Generated.WaitShape.handovers`,
+recognised per connection package): `Conn.Ping` before `Client.Ping`, `Conn.doObserve` before `NewObservation`, and the hook a
+connection installs in the limiter, called first thing in `LimitParallelRequests.Do/DoObserve`.  The `replace` then stands
+where the source has it: before the ping is written, before the observe request is written, before the first limiter wait.
+In today's source the list may be empty (F11, F12, F24 open) or not (fixed): the programs, the predictions of the driver and
+the obligations in `Findings/C11.lean` follow the regenerated facts.
 -/
 namespace CoapVerif.Model.ReaderPrograms
 open CoapVerif.Model.Reader CoapVerif.Generated.WaitShape
@@ -27,11 +34,18 @@ def wakesOnClose (fn : String) : Bool :=
 
 def rep (b : Bool) : List Act := if b then [.replace] else []
 
+def connFile (udp : Bool) : String := if udp then "udp/client/conn.go" else "tcp/client/conn.go"
+
+/-- on connections of this transport, `fn` hands the reader loop over before it enters `callee` -/
+def handed (udp : Bool) (fn callee : String) : Bool :=
+  handovers.any (fun h => h.file == connFile udp && h.func == fn && h.callee == callee)
+
 def totalKey : Nat := 0
 
 /-- limiter prefix shared by Do and DoObserve (`fn` = the function that holds the `limit.Acquire`) -/
-def limiterPart (fn : String) (epKey epLimit limit : Nat) : List Act :=
-  rep (preceded "LimitParallelRequests.acquireEndpoint" "select") ++ [.acquire epKey epLimit] ++
+def limiterPart (udp : Bool) (fn : String) (epKey epLimit limit : Nat) : List Act :=
+  rep (preceded "LimitParallelRequests.acquireEndpoint" "select" || handed udp fn "LimitParallelRequests.acquireEndpoint") ++
+  [.acquire epKey epLimit] ++
   rep (preceded fn "acquire") ++ [.acquire totalKey limit]
 
 /-- write of a request on the datagram transport (confirmable): `waitForAcknowledge` -/
@@ -39,14 +53,17 @@ def ackPart (udp : Bool) (k : Nat) : List Act :=
   if udp then rep (preceded "Conn.waitForAcknowledge" "select") ++ [.wait (.acked k) (wakesOnClose "Conn.waitForAcknowledge")] else []
 
 def doProg (udp : Bool) (epKey epLimit limit k : Nat) : List Act :=
-  [.startCall k 30000] ++ limiterPart "LimitParallelRequests.Do" epKey epLimit limit ++ [.send k] ++ ackPart udp k ++
+  [.startCall k 30000] ++ limiterPart udp "LimitParallelRequests.Do" epKey epLimit limit ++ [.send k] ++ ackPart udp k ++
   rep (preceded "Conn.doInternal" "select") ++ [.wait (.delivered k) (wakesOnClose "Conn.doInternal")] ++ [.endCall k]
 
 def observeProg (udp : Bool) (epKey epLimit limit k : Nat) : List Act :=
-  [.startCall k 20000] ++ limiterPart "LimitParallelRequests.DoObserve" epKey epLimit limit ++ [.send k] ++ ackPart udp k ++
+  [.startCall k 20000] ++ limiterPart udp "LimitParallelRequests.DoObserve" epKey epLimit limit ++
+  rep (handed udp "Conn.doObserve" "Handler.NewObservation") ++ [.send k] ++ ackPart udp k ++
   rep (preceded "Handler.NewObservation" "select") ++ [.wait (.delivered k) (wakesOnClose "Handler.NewObservation")] ++ [.endCall k]
 
-def pingProg : List Act :=
+/-- `cc.Ping(ctx)`: (`Conn.Ping`'s hand-over, if the connection has one,) `AsyncPing` writes the ping, then the select on the pong -/
+def pingProg (udp : Bool) : List Act :=
+  rep (handed udp "Conn.Ping" "Client.Ping") ++ [.send 0] ++
   [.startCall 0 10000] ++ rep (preceded "Client.Ping" "select") ++ [.wait .ponged (wakesOnClose "Client.Ping")] ++ [.endCall 0]
 
 end CoapVerif.Model.ReaderPrograms
